@@ -121,17 +121,34 @@ func (c *SpecCtx) eval(n *SpecNode) (Value, types.Type) {
 		for _, b := range n.Vars {
 			t := c.resolveTypeName(b.Type)
 			sortS := c.e.mode.leafSort(t)
-			if sortS == "" {
-				c.fail("quantified variable %s of composite type %s", b.Name, b.Type)
-			}
-			c.e.qcount++
-			bv := BoundVar(fmt.Sprintf("%s!%d", b.Name, c.e.qcount), sortS)
 			if old, ok := c.vars[b.Name]; ok {
 				o := old
 				saved[b.Name] = &o
 			} else {
 				saved[b.Name] = nil
 			}
+			if sortS == "" {
+				// a struct-typed bound variable: one bound variable per scalar leaf
+				if _, isStruct := t.Underlying().(*types.Struct); !isStruct {
+					c.fail("quantified variable %s of composite type %s", b.Name, b.Type)
+				}
+				c.e.qcount++
+				qn := c.e.qcount
+				sv := c.e.mode.build(t, func(li leafInfo) *Node {
+					lb := BoundVar(fmt.Sprintf("%s%s!%d", b.Name, sanitize(li.Path), qn), li.Sort)
+					bvs = append(bvs, lb)
+					if li.T != nil {
+						if _, _, ok := intInfo(li.T); ok {
+							ranges = append(ranges, c.e.ar.inRange(lb, li.T))
+						}
+					}
+					return lb
+				})
+				c.vars[b.Name] = specVar{sv, t}
+				continue
+			}
+			c.e.qcount++
+			bv := BoundVar(fmt.Sprintf("%s!%d", b.Name, c.e.qcount), sortS)
 			c.vars[b.Name] = specVar{bv, t}
 			bvs = append(bvs, bv)
 			if _, _, ok := intInfo(t); ok && !isMath(t) {
@@ -718,7 +735,12 @@ func (c *SpecCtx) indexExpr(x *ast.IndexExpr, sn *SpecNode) (Value, types.Type) 
 		idx := c.coerce(iv, it, types.Typ[types.Int])
 		return Select(e.strChars(base.(*Node)), idx), types.Typ[types.Uint8]
 	case *types.Map:
-		k := c.coerce(iv, it, u.Key())
+		var k *Node
+		if sv, isStruct := iv.(*StructV); isStruct {
+			k = e.keyNode(c.st, sv, u.Key())
+		} else {
+			k = c.coerce(iv, it, u.Key())
+		}
 		return e.mapGet(c.st, u, base.(*Node), k), u.Elem()
 	}
 	c.fail("index on %s", bt)
@@ -890,7 +912,7 @@ func (c *SpecCtx) callExpr(x *ast.CallExpr, sn *SpecNode) (Value, types.Type) {
 			}
 			var k *Node
 			if sv, isStruct := kv.(*StructV); isStruct {
-				k = e.packKey(sv, mtt.Key())
+				k = e.keyNode(c.st, sv, mtt.Key())
 			} else {
 				k = c.coerce(kv, kt, mtt.Key())
 			}
